@@ -150,6 +150,9 @@ pub struct World {
     /// Host names of repositories that differ from the default r<N>.rpki.test.
     #[serde(default)]
     pub host_override: std::collections::BTreeMap<usize, String>,
+    /// Host names used in rpkiNotify URIs where they differ from the repository's rsync host.
+    #[serde(default)]
+    pub notify_host_override: std::collections::BTreeMap<usize, String>,
 }
 
 pub const YEAR: Ts = 365 * 86400;
@@ -188,7 +191,8 @@ impl World {
     pub fn ca_repository(&self, ca: usize) -> String { let ca = self.point_of(ca); format!("rsync://{}/repo/ca{}/", self.host(self.cas[ca].repo), ca) }
     pub fn manifest_uri(&self, ca: usize) -> String { let ca = self.point_of(ca); format!("{}ca{}.mft", self.ca_repository(ca), ca) }
     pub fn crl_uri(&self, ca: usize) -> String { let ca = self.point_of(ca); format!("{}ca{}.crl", self.ca_repository(ca), ca) }
-    pub fn notify_uri(&self, repo: usize) -> String { format!("https://{}/rrdp/notification.xml", self.host(repo)) }
+    pub fn notify_host(&self, repo: usize) -> String { self.notify_host_override.get(&repo).cloned().unwrap_or_else(|| self.host(repo)) }
+    pub fn notify_uri(&self, repo: usize) -> String { format!("https://{}/rrdp/notification.xml", self.notify_host(repo)) }
     pub fn ta_uri(&self, tal: usize, n: usize) -> String { format!("rsync://ta{}u{}.rpki.test/ta/root.cer", tal, n) }
     pub fn object_uri(&self, ca: usize, obj: &Obj) -> String { format!("{}{}", self.ca_repository(ca), obj.name) }
     /// URI of the CA's own certificate (published by the parent).
@@ -272,7 +276,7 @@ pub fn gen_object(rng: &mut Rng, now: Ts, ca: usize, blocks: &[usize], n: usize,
 }
 
 pub fn generate(rng: &mut Rng, now: Ts, p: &GenParams) -> World {
-    let mut w = World { now, tals: Vec::new(), cas: Vec::new(), host_override: Default::default() };
+    let mut w = World { now, tals: Vec::new(), cas: Vec::new(), host_override: Default::default(), notify_host_override: Default::default() };
     let mut next_key = 0usize;
     for t in 0..p.tals {
         let root = w.cas.len();
@@ -400,7 +404,7 @@ pub fn add_cycle(w: &mut World, from: usize, to: usize) -> usize {
 
 /// A TAL with a single chain of `len` CAs below the TA, each with `objs` objects.
 pub fn gen_chain(rng: &mut Rng, now: Ts, len: usize, objs: usize) -> World {
-    let mut w = World { now, tals: vec![Tal { name: "chain".into(), root: 0, uris: vec![TaState::Good], ta_nb: now - YEAR, ta_na: now + 10 * YEAR }], cas: Vec::new(), host_override: Default::default() };
+    let mut w = World { now, tals: vec![Tal { name: "chain".into(), root: 0, uris: vec![TaState::Good], ta_nb: now - YEAR, ta_na: now + 10 * YEAR }], cas: Vec::new(), host_override: Default::default(), notify_host_override: Default::default() };
     for id in 0..=len {
         let this = now - 3600; let next = now + 3 * DAY;
         w.cas.push(Ca { id, parent: if id == 0 { None } else { Some(id - 1) }, tal: 0, key: id % super::keys::CA_KEYS, repo: id % 2, rrdp: false, extra_blocks: Vec::new(),
